@@ -323,6 +323,14 @@ def check_generic_fields(case: t.Any, ctx: Ctx) -> None:
     if k != 'ok':
         ctx.fail('leftmost-wins', 'through-type-variable:refused', f"GenFields[Union[{pair[0]}, {pair[1]}]] given {data}: {type(r).__name__}: {str(r)[:200]}")
         return
+    # the same with the union one level down in the argument: G[list[Union[a, b]]] after G[list[Union[b, a]]] (equal as typing sees them)
+    ctx.evaluated()
+    (k1, Ty2) = outcome(lambda: (G[list[t.Union[b, a]]], G[list[t.Union[a, b]]])[1])      # type: ignore
+    (k2, r2) = outcome(lambda: pane.from_data({'plain': [1], 'nested': [[1]], 'mapped': {'k': [1]}, 'ann': [[1]], 'mixed': {'k': [1]}, 'vol': [[1]]}, Ty2)) if k1 == 'ok' else ('-', None)
+    if k1 != 'ok' or k2 != 'ok' or any(type(z) is not type(want) for z in (r2.plain[0], r2.nested[0][0], r2.mapped['k'][0])):
+        ctx.fail('leftmost-wins', 'through-type-variable:union-inside-argument', f"GenFields[list[Union[{pair[0]}, {pair[1]}]]] (GenFields[list[Union[{pair[1]}, {pair[0]}]]] exists too) "
+                 f"given [1] in every field: the left-most member {pair[0]} gives {want!r}; got {k1}/{k2} {short(r2, 150)}")
+        return
     got = {'plain': r.plain, 'nested': r.nested[0], 'mapped': r.mapped['k'], 'ann': r.ann[0], 'mixed': r.mixed['k'], 'vol': list(r.vol)[0]}
     wrong = {f: type(x).__name__ for (f, x) in got.items() if type(x) is not type(want)}
     if wrong:
